@@ -29,13 +29,17 @@ Definition mname_eqb (a b: mname) : bool :=
    false for typing.Self, which needs no name lookup *)
 Record field := FD { f_cls : cid; f_spec : nat; f_byname : bool }.
 
-Record cdesc := CD {
+Record cdesc := CDX {
   c_lazy : bool;                  (* Config.lazy_compilation *)
   c_dsup : bool;                  (* ADD_DIALECT_SUPPORT *)
   c_fmts : list (nat * nat);      (* (unpack format, pack format) compiled at class creation; [] = plain dataclass *)
   c_fields : list field;          (* dataclass-valued positions incl. inherited ones, in field order *)
-  c_parent : option cid           (* the dataclass this class inherits from (single inheritance chain) *)
+  c_parent : option cid;          (* the dataclass this class inherits from (single inheritance chain) *)
+  c_apc : bool                    (* Config.allow_postponed_evaluation (default True; a plain dataclass has BaseConfig) *)
 }.
+(* a class with the default Config.allow_postponed_evaluation = True *)
+Definition CD (lazy dsup: bool) (fmts: list (nat * nat)) (fields: list field) (parent: option cid) : cdesc :=
+  CDX lazy dsup fmts fields parent true.
 Definition fam := list cdesc.
 Definition dflt_c := CD false false [] [] None.
 Definition cls (F: fam) (c: cid) : cdesc := nth c F dflt_c.
@@ -114,8 +118,9 @@ Inductive exc := EAttrCache | EAttrMeth | EUnresolved | EBuildCycle.
 
 (* method name used for a nested dataclass position with specialisation [spec] inside method m *)
 Definition nested (m: mname) (spec: nat) : mname := MN (m_pack m) (m_fmt m) false spec.
-(* the lazy stub rebuilds CodeBuilder(cls, first_method, ..., encoder/decoder) WITHOUT type_args *)
-Definition stub_target (m: mname) : mname := MN (m_pack m) (m_fmt m) (m_top m) 0.
+(* the lazy stub rebuilds CodeBuilder(cls, type_args, first_method, ..., encoder/decoder): the very method it stands for
+   (the type arguments are passed by name through the stub's globals) *)
+Definition stub_target (m: mname) : mname := m.
 (* the dialect branch builds CodeBuilder(cls, dialect=d, format_name) without encoder and type_args *)
 Definition dialect_target (m: mname) : mname := MN (m_pack m) (m_fmt m) false 0.
 
@@ -199,7 +204,9 @@ Section Build.
       if c_lazy cd && ap && (negb d5 || match d with None => true | Some _ => false end) then
         install F st c m d (Stub c m)
       else if unresolved F st c then
-        (if ap then install F st c m d (Stub c m) else (st, Some EUnresolved))
+        (* except UnresolvedTypeReferenceError: `if not self.allow_postponed_evaluation or not
+           config.allow_postponed_evaluation: raise`, else the postponed stub (kernel K114a) *)
+        (if ap && c_apc cd then install F st c m d (Stub c m) else (st, Some EUnresolved))
       else
         (* a nailed builder compiles the nested class' DEFAULT method on demand (dialect = None, fix 28d8957):
            the generated call value.__mashumaro_<m>__(flags) needs that method, whatever the dialect *)
